@@ -1,14 +1,12 @@
 SPECIFICATION Spec
 CONSTANTS
-  NumChunksSet = {0, 1, 2, 5}
-  MaxItemsSet = {3, 4, 5}
-  MaxBytesSet = {3, 4, 7}
-  EvictSet = {0, 1, 2, 4}
+  Configs <- CfgR1Quick
   UsedChunks = 1
   KeyIdx = {1, 2, 3}
   Sizes = {0, 1, 3}
   ImmunizeMax = 2
   KnownDefects = {}
+  WithBad = FALSE
   BothVariants = FALSE
   Log <- LogLast
   Depth = 0
